@@ -67,6 +67,24 @@ theorem c29_sink_history (is : List Sink.In) :
   | nil => rfl
   | cons i is ih => simp only [List.map_cons, List.filterMap_cons, Sink.xfer_eq_read, ih]
 
+-- OBLIGATION c29_sink_two_callers : StreamSink.read is exclusive: with two transactions attempting read (and two attempting peek) in one cycle, every transferred payload is delivered to exactly one read caller (the deliveries of both callers together = the handshake of the cycle), whichever caller has priority; both peek callers may see the head
+theorem c29_sink_two_callers (prio1 : Bool) (i : Sink.In2) :
+    let o := Sink.step2 prio1 i
+    optList o.r0 ++ optList o.r1
+      = optList (if i.valid && o.ready then some i.payload else none) ∧
+    (o.ready = ((i.r0 || i.r1) && i.valid)) ∧
+    (o.k0 = if i.k0 && i.valid then some i.payload else none) ∧
+    (o.k1 = if i.k1 && i.valid then some i.payload else none) := by
+  obtain ⟨v, p, r0, r1, k0, k1⟩ := i
+  cases prio1 <;> cases v <;> cases r0 <;> cases r1 <;> cases k0 <;> cases k1 <;>
+    simp [Sink.step2, Sink.step, grant, deliver, optList]
+
+-- OBLIGATION c29_one_writer : StreamSource.write / wrapper.write are exclusive: of two callers attempting in one cycle exactly the one with priority is granted, so at most one item is accepted per cycle
+theorem c29_one_writer (prio1 : Bool) (a0 a1 : Option Nat) :
+    (pickArg prio1 a0 a1 = a0 ∨ pickArg prio1 a0 a1 = a1) ∧
+    ((pickArg prio1 a0 a1).isSome = (a0.isSome || a1.isSome)) := by
+  cases prio1 <;> cases a0 <;> cases a1 <;> simp [pickArg, grant]
+
 -- OBLIGATION c29_wrapper_ports : StreamModuleWrapper around an ARBITRARY module M: executed writes = transfers into M.i followed by the item pending in the source; values read = transfers out of M.o; M.i sees a protocol-respecting producer; and the port trace is a trace of M alone against that environment
 theorem c29_wrapper_ports {σ : Type} (M : Mod σ) (is : List Wrapper.In) :
     let r := Wrapper.run M (Wrapper.init M) is
@@ -134,5 +152,7 @@ end TxV.Stream
 #print axioms TxV.Stream.c29_sink_read
 #print axioms TxV.Stream.c29_sink_peek
 #print axioms TxV.Stream.c29_sink_history
+#print axioms TxV.Stream.c29_sink_two_callers
+#print axioms TxV.Stream.c29_one_writer
 #print axioms TxV.Stream.c29_wrapper_ports
 #print axioms TxV.Stream.c29_wrapper_preserves
